@@ -5,7 +5,6 @@ S222 == {<<2, 2, 2>>}
 S322 == {<<3, 2, 2>>}
 S232 == {<<2, 3, 2>>}
 S223 == {<<2, 2, 3>>}
-S332 == {<<3, 3, 2>>}                      \* thorough: 2^18 masks
 SNone == {}
 \* Nb sub-model: volumes larger than any sphere, flat volumes, anisotropic volumes
 NbSmall == {<<2, 2, 2>>, <<3, 2, 2>>, <<4, 3, 2>>, <<1, 1, 5>>, <<5, 1, 1>>}
@@ -19,7 +18,8 @@ TMany == {<<0, 1>>, <<1, 3>>, <<1, 2>>, <<2, 3>>, <<3, 4>>, <<9, 10>>, <<1, 1>>}
 \* <<shape, holeMod, radius, threshold>> : centres just below / at / above the chunking limit of 1000
 BigQuick == {<<<<11, 10, 10>>, 23, <<3, 2>>, <<1, 2>>>>,      \* > 1000 centres : chunked
              <<<<11, 10, 10>>, 23, <<3, 2>>, <<1, 1>>>>,      \* same mask, < 1000 centres : unchunked
-             <<<<10, 10, 10>>, 0, <<1, 1>>, <<1, 1>>>>}       \* exactly 1000 centres : unchunked
+             <<<<10, 10, 10>>, 0, <<1, 1>>, <<1, 1>>>>,       \* exactly 1000 centres : unchunked
+             <<<<11, 10, 10>>, -1001, <<1, 1>>, <<1, 1>>>>}   \* exactly 1001 centres : chunked, sizes 10/11
 BigThorough == BigQuick \cup
             {<<<<11, 10, 10>>, 0, <<2, 1>>, <<1, 1>>>>,       \* 1100 centres
              <<<<11, 10, 10>>, 11, <<5, 2>>, <<3, 4>>>>,
